@@ -64,6 +64,7 @@ func (sw *Writer) WriteEvent(w http.ResponseWriter, event Event) error {
 
 	// Write event data with proper SSE formatting
 	// Split data by newlines and prefix each line with 'data: '
+	verifYield("sse.write.afterid")
 	dataStr := string(event.Data)
 	if dataStr != "" {
 		lines := strings.Split(strings.TrimSuffix(dataStr, "\n"), "\n")
@@ -74,6 +75,7 @@ func (sw *Writer) WriteEvent(w http.ResponseWriter, event Event) error {
 		}
 	}
 	// End of event (double newline)
+	verifYield("sse.write.beforeterm")
 	if _, err := fmt.Fprint(w, "\n"); err != nil {
 		return fmt.Errorf("failed to write SSE event terminator: %w", err)
 	}
